@@ -550,7 +550,24 @@ def s4_decision(ctx, rep):
             "the rung system keeps a running-record of a trial that was paused / stopped (or loses that of a running one)")
 
 
+def s10_pasha_order(ctx, rep, clause="S7"):
+    """PASHARungSystem.on_task_report: the report is entered into the per-epoch results, THEN the noise level epsilon is re-estimated,
+    THEN the rankings of the top two rungs are compared - the decision to raise the resource cap uses an epsilon that has seen this report"""
+    from .common import out_of_order, node_calls
+    f = ctx.P.method("PASHARungSystem", "on_task_report")
+    cfg = cfg_of(f)
+    chain = ["_update_per_epoch_results", "_update_epsilon", "_get_top_two_rungs_rankings"]
+    for a_, b_ in zip(chain, chain[1:]):
+        bad, firsts, thens = out_of_order(ctx, f, node_calls(a_), node_calls(b_))
+        if not firsts or not thens:
+            raise AnchorError(f"PASHARungSystem.on_task_report: {a_} / {b_} not found")
+        rep.put(not bad, clause, "must_precede", f"PASHARungSystem.on_task_report: {a_} precedes {b_}", f, cfg.nodes[bad[0][0]].ast if bad else None, "",
+                f"{b_} runs before {a_}: the ranking check of this report uses an epsilon (or results) that are one report behind - the resource cap is "
+                "raised (or kept) on stale information and a trial is promoted beyond the level it is eligible for")
+
+
 def run(ctx, rep, tier="quick"):
+    s10_pasha_order(ctx, rep)
     s4_decision(ctx, rep)
     from . import c03
     c03.bracket_offset(ctx, rep, "S3")
